@@ -47,7 +47,19 @@ MUTANTS = [
      "  const uint8_t *parents_array[MAX_SIMD_DEGREE_OR_2];\n  size_t parents_array_len = 0;",
      "  const uint8_t *parents_array[MAX_SIMD_DEGREE_OR_2];\n  static uint8_t scratch_cv[BLAKE3_OUT_LEN];\n"
      "  memcpy(scratch_cv, child_chaining_values, BLAKE3_OUT_LEN);\n  size_t parents_array_len = 0;",
-     ["compress_parents_parallel"], "hidden static scratch buffer in compress_parents_parallel (C18)"),
+     ["static_objects", "compress_parents_parallel"],
+     "hidden function-local static scratch buffer in compress_parents_parallel (C18; DFCC itself tolerates local statics)"),
+    ("parents_file_static_scratch", "blake3.c",
+     "INLINE size_t compress_parents_parallel(const uint8_t *child_chaining_values,\n"
+     "                                        size_t num_chaining_values,\n"
+     "                                        const uint32_t key[8], uint8_t flags,\n"
+     "                                        uint8_t *out) {",
+     "static uint8_t g_scratch_cv[BLAKE3_OUT_LEN];\n"
+     "INLINE size_t compress_parents_parallel(const uint8_t *child_chaining_values,\n"
+     "                                        size_t num_chaining_values,\n"
+     "                                        const uint32_t key[8], uint8_t flags,\n"
+     "                                        uint8_t *out) {\n  memcpy(g_scratch_cv, child_chaining_values, BLAKE3_OUT_LEN);",
+     ["compress_parents_parallel", "static_objects"], "hidden file-scope static scratch buffer written by compress_parents_parallel (C18)"),
     ("root_bytes_one_too_many", "blake3.c",
      "    memcpy(out, wide_buf, out_len);\n  }\n}", "    memcpy(out, wide_buf, out_len + 1);\n  }\n}",
      ["output_root_bytes"], "output_root_bytes writes out_len+1 bytes in the tail block"),
@@ -68,9 +80,6 @@ MUTANTS = [
      "  hasher_merge_cv_stack(self, chunk_counter);\n  memcpy(&self->cv_stack[",
      "  memcpy(&self->cv_stack[",
      ["hasher_push_cv"], "hasher_push_cv no longer merges first: stack overflow after enough pushes"),
-    ("finalize_stack_index", "blake3.c",
-     "cvs_remaining = self->cv_stack_len - 2;", "cvs_remaining = self->cv_stack_len - 1;",
-     ["blake3_hasher_finalize_seek"], "finalize reads a parent block starting at the last stack entry (reads past the stack)"),
     ("cpu_cache_not_idempotent", "blake3_dispatch.c",
      "ATOMIC_STORE(g_cpu_features, features);", "ATOMIC_STORE(g_cpu_features, features | UNDEFINED);",
      ["get_cpu_features"], "the feature cache stores a value that reads as UNDEFINED again"),
@@ -92,15 +101,27 @@ MUTANTS = [
      "blake3_hasher_init_derive_key_raw(self, context, strlen(context) + 1);",
      ["blake3_hasher_init_derive_key"], "derive_key hashes the terminating NUL too"),
 ]
+# Mutants that keep memory safety, frames and every shape invariant and only change WHICH bytes are
+# hashed: by design not detectable by this back end (functional correctness of the C library is an
+# assumption, see README); listed so that the self-test documents the limit (`mutants --limits`).
+NOT_CAUGHT_BY_DESIGN = [
+    ("finalize_stack_index", "blake3.c",
+     "cvs_remaining = self->cv_stack_len - 2;", "cvs_remaining = self->cv_stack_len - 1;",
+     ["blake3_hasher_finalize_seek"], "finalize starts the roll-up one stack entry too high: in bounds under HASHER_WF (len <= 54 there), wrong hash"),
+    ("parents_swapped_children", "blake3.c",
+     "&child_chaining_values[2 * parents_array_len * BLAKE3_OUT_LEN];\n    parents_array_len += 1;",
+     "&child_chaining_values[(num_chaining_values - 2 - 2 * parents_array_len) * BLAKE3_OUT_LEN];\n    parents_array_len += 1;",
+     ["compress_parents_parallel"], "parents are formed from the child pairs in reverse order: same frames, wrong tree"),
+]
 # thorough-tier mutants (slow unit): run with `mutants --thorough`
 MUTANTS_THOROUGH = [
     ("update_take_off_by_one", "blake3.c",
      "size_t take = BLAKE3_CHUNK_LEN - chunk_state_len(&self->chunk);",
      "size_t take = BLAKE3_CHUNK_LEN + 1 - chunk_state_len(&self->chunk);",
      ["blake3_hasher_update_base"], "update lets a chunk grow to 1025 bytes"),
-    ("update_shrink_loop_dropped", "blake3.c",
-     "      subtree_len /= 2;", "      break;",
-     ["blake3_hasher_update_base"], "subtree_len no longer shrunk to divide the count so far: stack shape broken"),
+    ("update_counter_increment", "blake3.c",
+     "    self->chunk.chunk_counter += subtree_chunks;", "    self->chunk.chunk_counter += 1;",
+     ["blake3_hasher_update_base"], "chunk counter advanced by 1 instead of the subtree's chunk count: byte total and stack shape broken"),
 ]
 HARMLESS = [
     ("rename_local", "blake3.c", None, None, [
@@ -164,13 +185,13 @@ def main():
         tier = ["--tier", "all" if thorough else "quick"]
         for r in run_backend([], REPO, jobs, tier + ["--sanity"]):
             msgs = [f["message"] for f in r["failed"]]
-            good = r["status"] == "fail" and len(msgs) == 1 and "VERIF_SANITY" in msgs[0]
+            good = r["status"] == "fail" and len(msgs) == 1 and ("VERIF_SANITY" in msgs[0] or "verif_sanity_static" in msgs[0])
             ok &= good
             print("%-36s %-22s %s" % (r["unit"], "reachable (not vacuous)" if good else "PROBLEM", "" if good else (r["status"], msgs, r["undecided_reason"])))
     elif mode == "mutants":
         root = tempfile.mkdtemp(prefix="verif_cbmc_selftest_", dir=os.environ.get("VERIF_SCRATCH", "/tmp"))
         try:
-            todo = (MUTANTS_THOROUGH if thorough else MUTANTS)
+            todo = (MUTANTS_THOROUGH if thorough else NOT_CAUGHT_BY_DESIGN if "--limits" in sys.argv else MUTANTS)
             only = [a for a in sys.argv[2:] if not a.startswith("-") and not a.isdigit()]
             from concurrent.futures import ThreadPoolExecutor
 
@@ -182,7 +203,7 @@ def main():
                 shutil.rmtree(d, ignore_errors=True)
                 return m, rs, time.time() - t0
             ms = [(m, False) for m in todo if not only or m[0] in only]
-            if not thorough:
+            if not thorough and "--limits" not in sys.argv:
                 ms += [(m, True) for m in HARMLESS if not only or m[0] in only]
             with ThreadPoolExecutor(max_workers=max(1, jobs // 2)) as ex:
                 futs = [(h, ex.submit(one, m, h)) for m, h in ms]
@@ -195,7 +216,11 @@ def main():
                 else:
                     caught = [r for r in rs if r["status"] == "fail"]
                     good = bool(caught)
-                    print("MUTANT   %-30s %-8s (%s) %.0fs" % (name, "caught" if good else "MISSED", descr, secs))
+                    if "--limits" in sys.argv:
+                        good = rs and all(r["status"] == "pass" for r in rs)
+                        print("LIMIT    %-30s %-8s (%s) %.0fs" % (name, "passes, as documented" if good else "UNEXPECTED", descr, secs))
+                    else:
+                        print("MUTANT   %-30s %-8s (%s) %.0fs" % (name, "caught" if good else "MISSED", descr, secs))
                     for r in rs:
                         print("           unit %-34s %s %s" % (r["unit"], r["status"], r["undecided_reason"] or ""))
                         for fo in r["failed"][:4]:
